@@ -96,9 +96,9 @@ type c09Obj struct {
 
 type c09File struct{ name string }
 
-func (f c09File) Name() string                         { return f.name }
+func (f c09File) Name() string                        { return f.name }
 func (f c09File) ObjAddr(addr uint64) (uint64, error) { return addr ^ 0xfff, nil }
-func (f c09File) BuildID() string                      { return "" }
+func (f c09File) BuildID() string                     { return "" }
 func (f c09File) SourceLine(addr uint64) ([]plugin.Frame, error) {
 	if addr%3 == 0 {
 		return nil, errors.New("no line info")
